@@ -3,6 +3,7 @@ package graphql
 import (
 	"context"
 	"fmt"
+	"sort"
 
 	"github.com/graphql-go/graphql/gqlerrors"
 	"github.com/graphql-go/graphql/language/parser"
@@ -149,6 +150,10 @@ func ExecuteSubscription(p ExecuteParams) chan *Result {
 		for name := range fields {
 			responseNames = append(responseNames, name)
 		}
+		// a subscription has one root field; should the document select
+		// several, always subscribe to the same one rather than to
+		// whichever the map yields first
+		sort.Strings(responseNames)
 		responseName := responseNames[0]
 		fieldNodes := fields[responseName]
 		fieldNode := fieldNodes[0]
